@@ -20,8 +20,19 @@ def minOf : List α → α
   | [] => 0
   | x :: r => r.foldl (fun m y => if y < m then y else m) x
 
-/-- `sum(xs)`: `0 + x₁ + x₂ + …` -/
-def sumOf (l : List α) : α := l.foldl (fun s x => s + x) 0
+def absOf (x : α) : α := if x < 0 then 0 - x else x
+
+/-- one step of CPython's (≥ 3.12) float `sum()`: Neumaier-compensated addition -/
+def sumStep (st : α × α) (x : α) : α × α :=
+  let t := st.1 + x
+  if absOf st.1 < absOf x then (t, st.2 + ((x - t) + st.1)) else (t, st.2 + ((st.1 - t) + x))
+
+/-- `sum(xs)` of floats as CPython ≥ 3.12 computes it: running sum plus a compensation term that
+    is added at the end when it is non-zero.  In exact arithmetic the compensation is always 0 and
+    this is the plain sum (`sumOf_eq`). -/
+def sumOf (l : List α) : α :=
+  let r := l.foldl sumStep (0, 0)
+  if r.2 == 0 then r.1 else r.1 + r.2
 
 def FVal.mass (am : Atom → α) (f : FVal α) : α := massOf am f.s.atoms
 
